@@ -5,16 +5,35 @@ import sys
 
 
 def sx(x):
-    """JSON-ish nested lists -> S-expression text"""
-    if isinstance(x, (list, tuple)):
-        return "(" + " ".join(sx(i) for i in x) + ")"
-    if x is True:
-        return "1"
-    if x is False:
-        return "0"
-    if x is None:
-        return "none"
-    return str(x)
+    """JSON-ish nested lists -> S-expression text (iterative: programs can be nested thousands of levels deep)"""
+    out = []
+    stack = [x]
+    while stack:
+        y = stack.pop()
+        if isinstance(y, (list, tuple)):
+            out.append("(")
+            stack.append(_CLOSE)
+            stack.extend(reversed(y))
+        elif y is _CLOSE:
+            out.append(")")
+        elif y is True:
+            out.append("1")
+        elif y is False:
+            out.append("0")
+        elif y is None:
+            out.append("none")
+        else:
+            out.append(str(y))
+    # join with spaces, but not after "(" nor before ")"
+    res = []
+    for i, t in enumerate(out):
+        if i and t != ")" and out[i - 1] != "(":
+            res.append(" ")
+        res.append(t)
+    return "".join(res)
+
+
+_CLOSE = object()
 
 
 class Node(object):
@@ -41,6 +60,24 @@ class AttrCell(object):
 
 class FlushError(Exception):
     pass
+
+
+class FalsyError(Exception):
+    """user error token 2: an exception instance that is falsy (len() == 0)"""
+
+    def __len__(self):
+        return 0
+
+
+class FlushAbort(BaseException):
+    """what the flush body of an odd batch kind raises: not an Exception"""
+
+
+class Holder(list):
+    """the third argument of every task: its repr() raises RecursionError (asynq's task descriptions must cope)"""
+
+    def __repr__(self):
+        raise RecursionError("argument cannot be repr()ed")
 
 
 class AbortError(BaseException):
@@ -171,14 +208,14 @@ class Harness(object):
     def get_err(self, n):
         e = self.err.get(n)
         if e is None:
-            e = self.err[n] = (AbortError if n == 3 else UserError)("user error %d" % n)
+            e = self.err[n] = (AbortError if n == 3 else FalsyError if n == 2 else UserError)("user error %d" % n)
             self.err_tok[id(e)] = ["u", n]
         return e
 
     def get_flush_err(self, kind):
         e = self.flush_err.get(kind)
         if e is None:
-            e = self.flush_err[kind] = FlushError("flush of kind %s raises" % kind)
+            e = self.flush_err[kind] = (FlushAbort if kind % 2 else FlushError)("flush of kind %s raises" % kind)
             self.err_tok[id(e)] = ["flushraise", kind]
         return e
 
@@ -353,7 +390,7 @@ class Harness(object):
         return sv
 
     def spawn(self, st, child, passrefs):
-        me = [None]
+        me = Holder([None])
         t = self.task_fn.asynq(child, [self.resolve(st, r) for r in passrefs], me)
         me[0] = self.reg(t, "task")
         return t
@@ -493,9 +530,9 @@ class Harness(object):
         self.emit(["top", idx, conv])
         try:
             if conv == "call":
-                v = self.task_fn(body, [], [None])
+                v = self.task_fn(body, [], Holder([None]))
             else:
-                me = [None]
+                me = Holder([None])
                 t = self.task_fn.asynq(body, [], me)
                 me[0] = self.reg(t, "task")
                 v = t.value()
